@@ -80,7 +80,7 @@ void ValueStoreCache::startElement() {
     fGlobalICMap = new (fMemoryManager) RefHashTableOf<ValueStore, PtrHasher>
     (
         13
-        , false
+        , true
         , fMemoryManager
     );
 }
@@ -91,24 +91,32 @@ void ValueStoreCache::endElement() {
         return; // must be an invalid doc!
     }
 
-    RefHashTableOf<ValueStore, PtrHasher>* oldMap = fGlobalMapStack->pop();
-    RefHashTableOfEnumerator<ValueStore, PtrHasher> mapEnum(oldMap, false, fMemoryManager);
-//    Janitor<RefHashTableOf<ValueStore> > janMap(oldMap);
+    RefHashTableOf<ValueStore, PtrHasher>* parentMap = fGlobalMapStack->pop();
 
-    while (mapEnum.hasMoreElements()) {
+    // Hand the values of this element and of its descendants up to the
+    // parent. There is nobody to refer to them if that is not an element
+    // on which identity constraints are active.
+    if (!fGlobalMapStack->empty()) {
 
-        ValueStore& oldVal = mapEnum.nextElement();
-        IdentityConstraint* ic = oldVal.getIdentityConstraint();
-        ValueStore* currVal = fGlobalICMap->get(ic);
+        RefHashTableOfEnumerator<ValueStore, PtrHasher> mapEnum(fGlobalICMap, false, fMemoryManager);
 
-        if (!currVal) {
-            fGlobalICMap->put(ic, &oldVal);
-        }
-        else {
-            currVal->append(&oldVal);
+        while (mapEnum.hasMoreElements()) {
+
+            ValueStore& childVal = mapEnum.nextElement();
+            IdentityConstraint* ic = childVal.getIdentityConstraint();
+            ValueStore* parentVal = parentMap->get(ic);
+
+            if (!parentVal) {
+                parentVal = new (fMemoryManager) ValueStore(ic, fScanner, fMemoryManager);
+                parentMap->put(ic, parentVal);
+            }
+
+            parentVal->appendFromChild(&childVal);
         }
     }
-    delete oldMap;
+
+    delete fGlobalICMap;
+    fGlobalICMap = parentMap;
 }
 
 // ---------------------------------------------------------------------------
@@ -128,7 +136,7 @@ void ValueStoreCache::init() {
     fGlobalICMap = new (fMemoryManager) RefHashTableOf<ValueStore, PtrHasher>
     (
         13
-        , false
+        , true
         , fMemoryManager
     );
     fIC2ValueStoreMap = new (fMemoryManager) RefHash2KeysTableOf<ValueStore, PtrHasher>
@@ -173,7 +181,11 @@ void ValueStoreCache::transplant(IdentityConstraint* const ic, const int initial
     if (currVals) {
         currVals->append(newVals);
     } else {
-        fGlobalICMap->put(ic, newVals);
+        // the local store is cleared and filled again by the next element
+        // that has this constraint, so its values move to a store of the table
+        currVals = new (fMemoryManager) ValueStore(ic, fScanner, fMemoryManager);
+        fGlobalICMap->put(ic, currVals);
+        currVals->takeOver(newVals);
     }
 }
 
